@@ -714,17 +714,24 @@ func parseShortTermRPS(r *bits.EBSPReader, idx, numSTRefPicSets byte, sps *SPS) 
 		/* absDeltaRpsMinus1*/ _ = r.ReadExpGolomb()
 		//deltaRps := (1 - (deltaRpsSign << 1)) * (absDeltaRpsMinus1 + 1)
 		refIdx := idx - deltaIdx
-		numDeltaPocs := sps.ShortTermRefPicSets[refIdx].NumDeltaPocs
-		for j := byte(0); j <= numDeltaPocs; j++ {
+		// The loop counter must be wider than a byte: numDeltaPocs + 1 entries are read
+		numDeltaPocs := int(sps.ShortTermRefPicSets[refIdx].NumDeltaPocs)
+		nrDeltaPocs := 0
+		for j := 0; j <= numDeltaPocs; j++ {
 			usedByCurrPicFlag := r.ReadFlag()
 			useDeltaFlag := true
 			if !usedByCurrPicFlag {
 				useDeltaFlag = r.ReadFlag()
 			}
 			if usedByCurrPicFlag || useDeltaFlag {
-				stps.NumDeltaPocs++
+				nrDeltaPocs++
 			}
 		}
+		if nrDeltaPocs > 2*maxSTRefPics { // Same limit as for NumNegativePics + NumPositivePics below
+			r.SetError(fmt.Errorf("more than %d short term reference pictures", 2*maxSTRefPics))
+			return stps
+		}
+		stps.NumDeltaPocs = byte(nrDeltaPocs)
 	} else {
 		stps.NumNegativePics = byte(r.ReadExpGolomb())
 		stps.NumPositivePics = byte(r.ReadExpGolomb())
